@@ -406,6 +406,16 @@ def check(repo):
     for wfi, call in F.directory_creators(repo, F.SRV_FM):
         r3.fail_fn(wfi, call, "%s creates directories" % wfi.name,
                    "%s creates the service directory itself (%s): only the accepted configuration upload may bring a service into being" % (wfi.name, short(call)))
+    sw, n_mk = F.creation_failures_swallowed(repo, F.SRV_FM)
+    r3.require(n_mk >= 1, repo.module(F.SRV_FM).functions.get("create_sid_folder") or svc.methods["__init__"], "directory creation found",
+               "the server file manager no longer creates the service directory")
+    for wfi, call, names in sw:
+        r3.fail_fn(wfi, call, "%s swallows a failed creation" % wfi.name,
+                   "%s swallows %s around %s: when the service directory cannot be created (a name that is no directory name, a missing parent, no "
+                   "permission) the upload goes on, the artifact writers find no directory and write nothing, and the configuration is acknowledged "
+                   "without being on disk" % (wfi.name, "/".join(names), short(call)))
+    if not sw:
+        r3.ok({"file_manager": F.SRV_FM, "directory creations": n_mk, "rule": "no failure of the creation but 'already exists' is swallowed"})
     _check_artifact_names(repo, r3)
 
     # ------------------------------------------------------------------ R10.6 a closed connection cannot overwrite its successor's state
@@ -744,6 +754,10 @@ VARIANTS = [
       "            reason = f\"The config of service {self.short_sid} has not been uploaded.\"\n            self._store_service_meta()\n")]),
     V("delete-handler-added", "fire", "R10.4", [(_S, "Service.close_service",
       "        self._store_service_meta()", "        self._store_service_meta()\n        FileManager.delete_sid_folder(self.sid)")]),
+    V("mkdir-failure-swallowed", "fire", "R10.3", [(F.SRV_FM, "create_sid_folder",
+      "    _PROGRAM_PATH.joinpath(sid).mkdir(exist_ok=True)", "    try:\n        _PROGRAM_PATH.joinpath(sid).mkdir()\n    except OSError:\n        pass")]),
+    V("benign-mkdir-exists-caught", "silent", None, [(F.SRV_FM, "create_sid_folder",
+      "    _PROGRAM_PATH.joinpath(sid).mkdir(exist_ok=True)", "    try:\n        _PROGRAM_PATH.joinpath(sid).mkdir()\n    except FileExistsError:\n        pass")]),
     V("benign-two-ifs-folded", "silent", None, [(_S, "Service.handle_upload_encrypted_database",
       "if self.get_current_service_state() == SERVICE_STATE.ALL_READY:", "if self.get_current_service_state() >= SERVICE_STATE.ALL_READY:")]),
     V("benign-local-alias", "silent", None, [(_S, "Service.handle_upload_config",
